@@ -122,6 +122,9 @@ func (p *VarHeaderPostprocessor) substr(args []string) (func(in string) string, 
 		if start < 0 {
 			start = 0
 		}
+		if end < 0 {
+			end = 0
+		}
 		if end > l {
 			end = l
 		}
